@@ -720,7 +720,56 @@ func (g *Gen) scanBurst() []*Step {
 	return st
 }
 
+// keyScanBurst builds a keyspace in which keys of one type are separated (in creation order) by
+// a run of keys of another type at least as long as the page, and iterates it with that type as
+// filter: the page limit must apply to the keys of the requested type, not to the stored ones.
+func (g *Gen) keyScanBurst() []*Step {
+	mk := func(t int, k string) *Op {
+		switch t {
+		case 1:
+			return SSet(k, VStr("v"))
+		case 2:
+			return LPushBack(k, VStr("v"))
+		case 3:
+			return EAdd(k, VStr("v"))
+		case 4:
+			return HSet(k, "f", VStr("v"))
+		default:
+			return ZAdd(k, VStr("v"), 1)
+		}
+	}
+	want := 1 + g.pick(5)
+	other := 1 + (want+g.pick(4))%5
+	small := g.chance(0.5)
+	var st []*Step
+	st = append(st, &Step{Ops: []*Op{KDelete(g.Keys...)}})
+	if small {
+		// the three usual keys: wanted, other, wanted - pages of one
+		ks := g.Keys
+		st = append(st, &Step{Ops: []*Op{mk(want, ks[0])}}, &Step{Ops: []*Op{mk(other, ks[1%len(ks)])}}, &Step{Ops: []*Op{mk(want, ks[2%len(ks)])}})
+		st = append(st, KeyIteration("*", want, 1), KeyIteration(g.pattern(), want, 1))
+		return st
+	}
+	// a run of 11 other keys between two wanted ones - default pages (10)
+	st = append(st, &Step{Ops: []*Op{mk(want, "w-first")}})
+	for i := 0; i < 11; i++ {
+		st = append(st, &Step{Ops: []*Op{mk(other, fmt.Sprintf("o%02d", i))}})
+	}
+	st = append(st, &Step{Ops: []*Op{mk(want, "w-last")}})
+	st = append(st, KeyIteration("*", want, []int{0, 10, 3}[g.pick(3)]), KeyIteration("w*", 0, 0))
+	// leave the usual small keyspace behind
+	var names []string
+	for i := 0; i < 11; i++ {
+		names = append(names, fmt.Sprintf("o%02d", i))
+	}
+	st = append(st, &Step{Ops: []*Op{KDelete(append(names, "w-first", "w-last")...)}})
+	return st
+}
+
 func (g *Gen) burst() []*Step {
+	if g.Prof.Scan && !g.Prof.Glob && !g.Prof.Binary && g.chance(0.3) {
+		return g.keyScanBurst()
+	}
 	if g.Prof.Scan && g.chance(0.6) {
 		return g.scanBurst()
 	}
